@@ -84,8 +84,10 @@ F(i) == [ name      |-> Trunc(i.comm),
           ctx       |-> <<VOL, NONVOL>>,
           uids      |-> SubSeq(UIDS, 1, 3),
           gids      |-> SubSeq(GIDS, 1, 3),
-          threads   |-> IF i.letter = "Z" THEN {<<1, UTIME, STIME>>}
-                        ELSE {<<k, IF k = 1 THEN UTIME ELSE TUt(k), IF k = 1 THEN STIME ELSE TSt(k)>> : k \in 1..i.nthr} ]
+          \* (the main thread's own counters are not the process totals: those also hold the time of
+          \* threads that have exited)
+          threads   |-> IF i.letter = "Z" THEN {<<1, TUt(1), TSt(1)>>}
+                        ELSE {<<k, TUt(k), TSt(k)>> : k \in 1..i.nthr} ]
 
 Init == /\ inp \in Inputs
         /\ out = Pending
